@@ -4,6 +4,7 @@ From stdpp Require Import gmap strings sets pretty sorting.
 From SK Require Import model.C15_Model proof.C15_Proof.
 From SK Require Import model.C15_Ext proof.C15_Ext proof.C15_ExtQ proof.C15_ExtP proof.C15_ExtS proof.C15_ExtL proof.C15_ExtM proof.C15_ExtH proof.C15_ExtEx.
 From SK Require Import model.C15_View proof.C15_View.
+From SK Require Import model.C16_Model proof.C15_ViewGraph.
 Local Open Scope string_scope.
 
 (** ** 1. The store invariant *)
@@ -627,3 +628,35 @@ Theorem C15_view_coef_edit_refuted :
                 (b_net (getb (backends (fold_left (fun w o => (step3 w o).1.1) ops (init_world3 1 0 2))) b))).
 Proof. exact view_coef_edit_refuted. Qed.
 Print Assumptions C15_view_coef_edit_refuted.
+
+(** ** 8. (round 5) The cached view IS the export of the current network.
+    [C15_view_current] speaks through the abstraction [vproj]; here the snapshot is pushed through the Gallina models of the
+    export functions themselves (C16: model/C16_Model.v — [backend_bipartite] = hypergraph_to_bipartite with the backend's
+    flags, [hypergraph_to_species_graph]), i.e. through exactly what _CRNGraphBackend._build_graph calls: after ANY history
+    of store-method calls and backend operations from empty networks, the graph a backend hands out on access equals the
+    graph exported from the network as it is now — for the bipartite view (string or integer ids, with or without
+    coefficients) and for the species graph. *)
+Theorem C15_view_graph_current : forall (n k nb : nat) (ops : list op3) (b : nat),
+  Forall (fun o => match o with O2 (OSideSet _ _ _ _ _) | O2 (OSideIncr _ _ _ _ _) => False | _ => True end) ops ->
+  let w := fold_left (fun w o => (step3 w o).1.1) ops (init_world3 n k nb) in
+  let be := getb (backends w) b in
+  let snap := (access w b).2 in
+  let cur := getn (nets (w2 w)) (b_net be) in
+  (if include_rule (b_opts be)
+   then inl (backend_bipartite (integer_ids (b_opts be)) (include_stoich (b_opts be)) snap)
+   else inr (hypergraph_to_species_graph false snap) : bgraph + sgraph)
+  = (if include_rule (b_opts be)
+     then inl (backend_bipartite (integer_ids (b_opts be)) (include_stoich (b_opts be)) cur)
+     else inr (hypergraph_to_species_graph false cur)).
+Proof. exact view_graph_current. Qed.
+Print Assumptions C15_view_graph_current.
+
+(** the exports never read the per-rule id counters (the only part of the store a snapshot with the current version may
+    differ in, [C15_view_inv_meaning]): same content, same graphs — for EVERY flag combination of the bipartite export *)
+Theorem C15_exports_ignore_counters : forall (fl : bflags) (b : bool) (s s' : net),
+  species s' = species s -> edges s' = edges s -> order s' = order s -> s_in s' = s_in s -> s_out s' = s_out s ->
+  mol s' = mol s -> kept s' = kept s ->
+  hypergraph_to_bipartite fl s' = hypergraph_to_bipartite fl s /\
+  hypergraph_to_species_graph b s' = hypergraph_to_species_graph b s.
+Proof. exact exports_ignore_counters. Qed.
+Print Assumptions C15_exports_ignore_counters.
